@@ -308,7 +308,12 @@ func (r *runner) caller(si int) {
 	}
 	cfg := scheduler.Config{Concurrency: sd.N, ContinueOnError: sd.COE}
 	if sd.Emitter {
-		cfg.Emitter = emitFn(func(st scheduler.State) { sr.emit(r, si, st) })
+		cfg.Emitter = emitFn(func(st scheduler.State) {
+			if sd.SlowEmit {
+				sim.Yield(engine.HsMisc) // an emitter that takes its time
+			}
+			sr.emit(r, si, st)
+		})
 		cfg.StateFlushFrequency = time.Duration(sd.FreqSteps)*engine.Q + time.Duration(sd.FreqOdd)
 	}
 	sched := cfg.New()
